@@ -91,8 +91,19 @@ func runC01(c *run.Ctx) {
 		kind := back.Kinds[i%len(back.Kinds)]
 		refl := kind == "reflect" || kind == "mixed-reflect"
 		// reflection fields cannot observe arguments: no echo fields in schemas served by reflection
-		ec := newExecCaseG(r, gen.SchemaOpts{Args: !refl, Mutation: true},
-			gen.DocOpts{Frags: true, Dirs: true, Vars: true, Aliases: true, Mutation: true, Depth: 2 + r.Intn(3)}, gen.GraphOpts{TypedNil: 4})
+		ec := newExecCaseG(r, gen.SchemaOpts{Args: !refl, Mutation: true, Abstract: kind == "reflect" && i%2 == 0},
+			gen.DocOpts{Frags: true, Dirs: true, Vars: true, Aliases: true, Mutation: true, Depth: 2 + r.Intn(3), DupKeys: i%3 == 0, Abstract: kind == "reflect" && i%2 == 0}, gen.GraphOpts{TypedNil: 4})
+		if i%16 == 7 {
+			// a deep chain through a non-null, self-referential field: valid and below MaxResolveDepth (100)
+			depth := 40 + r.Intn(50)
+			var sels []model.Sel = []model.Sel{&model.Field{Name: "hello"}, &model.Field{Name: "__typename"}}
+			for d := 0; d < depth; d++ {
+				sels = []model.Sel{&model.Field{Name: "selfReq", Sels: sels}, &model.Field{Alias: "k", Name: "hello"}}
+			}
+			ec.DC = &gen.DocCase{Doc: &model.Doc{Ops: []*model.Op{{Kind: "query", Name: "Deep", Sels: sels}}}, Vars: map[string]interface{}{}, Feats: map[string]bool{"nested": true, "deep-chain": true, "alias": true, "__typename": true}, OpName: "Deep"}
+			ec.Text = ec.DC.Doc.Print(model.LayoutN(ec.Layout))
+			c.Bucket("doc_features", "deep-chain")
+		}
 		if refl && !back.ReflectFriendly(ec.S) {
 			kind = "iface"
 		}
@@ -121,7 +132,7 @@ func runC01(c *run.Ctx) {
 			c.Bucket("backend", kind)
 			feats := ec.DC.Feats
 			cnt := 0
-			for _, f := range []string{"alias", "inline-fragment", "named-fragment", "list-of-list", "multi-op", "variables", "directives", "args", "__typename", "fragment-reuse"} {
+			for _, f := range []string{"alias", "inline-fragment", "named-fragment", "list-of-list", "multi-op", "variables", "directives", "args", "__typename", "fragment-reuse", "dup-key", "dup-key-composite", "abstract-field"} {
 				if feats[f] {
 					cnt++
 					c.Bucket("doc_features", f)
